@@ -25,15 +25,61 @@ Mechanism level (model of smpi_win.cpp's request plumbing, section Mech of Model
 -/
 namespace SgVerif.C34
 
+/-! ### addressing: displacement units and the range check (boundaries) -/
+
+/-- The cell a displacement denotes is decided by the *target's* displacement unit alone: two assignments of units to the
+ranks that agree on the target give the same cell, whatever the origin's (or anybody else's) unit is. -/
+theorem dispIndexAt_target_only (dus dus' : List Nat) (t disp : Nat) (h : dus[t]? = dus'[t]?) :
+    dispIndexAt dus t disp = dispIndexAt dus' t disp := by
+  simp [dispIndexAt, h]
+
+/-- with the same unit everywhere this is the single-unit conversion -/
+theorem dispIndexAt_uniform (n du t disp : Nat) (h : t < n) :
+    dispIndexAt (List.replicate n du) t disp = dispIndex du disp := by
+  simp [dispIndexAt, h]
+
+/-- units 4 / 1 / 8 on ranks 0 / 1 / 2: cell 2 of each window is displacement 2, 8, 1 -/
+example : (dispIndexAt [4, 1, 8] 0 2, dispIndexAt [4, 1, 8] 1 8, dispIndexAt [4, 1, 8] 2 1, dispIndexAt [4, 1, 8] 1 3)
+    = (some 2, some 2, some 2, none) := by decide
+
+/-- `CHECK_RMA_REMOTE_WIN` at its boundary, for every window size: a transfer of exactly the whole window is accepted
+(a one-element counter window can be read and updated), one element more is refused.  (CAS: no check.) -/
+theorem rangeErr_iff (w : Nat) (c : Call) (h : ∀ id t d a b, c ≠ .cas id t d a b) :
+    c.rangeErr w = true ↔ w < c.count := by
+  cases c with
+  | cas id t d a b => exact absurd rfl (h id t d a b)
+  | put t d vals => simp [Call.rangeErr, Call.count]
+  | get id t d n => simp [Call.rangeErr, Call.count]
+  | acc t d op vals => simp [Call.rangeErr, Call.count]
+  | gacc id t d op vals => simp [Call.rangeErr, Call.count]
+
+theorem whole_window_accepted (ws : WSizes) (c : Call) (h : c.count ≤ ws c.target) : c.execW ws = c.exec := by
+  funext m
+  have : c.rangeErr (ws c.target) = false := by
+    cases c <;> simp [Call.rangeErr, Call.count] at * <;> omega
+  simp [Call.execW, this]
+
+theorem past_the_end_refused (ws : WSizes) (c : Call) (h : ∀ id t d a b, c ≠ .cas id t d a b)
+    (hc : ws c.target < c.count) (m : Mem) : c.execW ws m = m := by
+  simp [Call.execW, (rangeErr_iff (ws c.target) c h).2 hc]
+
+/-- the range check looks at the size of the TARGET's window only: two size assignments that agree on the target of a
+call treat the call alike, whatever the size of the origin's own window is -/
+theorem execW_target_only (ws ws' : WSizes) (c : Call) (h : ws c.target = ws' c.target) : c.execW ws = c.execW ws' := by
+  funext m; simp [Call.execW, h]
+
+example : (Call.put 1 0 [5]).rangeErr 1 = false ∧ (Call.gacc 7 1 0 .sum [5]).rangeErr 1 = false ∧
+    (Call.get 7 1 0 4).rangeErr 4 = false ∧ (Call.get 7 1 0 5).rangeErr 4 = true := by decide
+
 /-! ### specification -/
 
 /-- Under exclusive locks (and for any phase) the observation is allowed iff it is the result of *some* serialisation
 of the epochs that keeps each origin's program order: the result depends only on that order. -/
-theorem rma_spec_allowed_iff (n w : Nat) (m0 : Mem) (ph : Phase) (o : Obs) :
-    allowed n w m0 ph o = true ↔ ∃ order ∈ merges ph, matchesObs n w (runBlocks w order m0) o = true := by
+theorem rma_spec_allowed_iff (n w : Nat) (ws : WSizes) (m0 : Mem) (ph : Phase) (o : Obs) :
+    allowed n w ws m0 ph o = true ↔ ∃ order ∈ merges ph, matchesObs n w (runBlocks ws order m0) o = true := by
   simp [allowed, List.any_eq_true]
 
-theorem phaseCommutes_sound (w : Nat) (o : List Block) (os : Phase) (h : phaseCommutes (o :: os) = true) :
+theorem phaseCommutes_sound (w : WSizes) (o : List Block) (os : Phase) (h : phaseCommutes (o :: os) = true) :
     (∀ x ∈ o, ∀ y ∈ os.flatten, Commutes (Block.exec w x) (Block.exec w y)) ∧ phaseCommutes os = true := by
   simp only [phaseCommutes, Bool.and_eq_true, List.all_eq_true] at h
   refine ⟨?_, h.2⟩
@@ -45,7 +91,7 @@ theorem phaseCommutes_sound (w : Nat) (o : List Block) (os : Phase) (h : phaseCo
 /-- **Determinacy.**  When the blocks of different origins commute pairwise — disjoint footprints, or plain
 accumulates with one commutative-associative operator — every allowed serialisation gives the same memory (windows
 *and* result buffers): the one of the canonical order. -/
-theorem rma_spec_determinate (w : Nat) (ph : Phase) (h : phaseCommutes ph = true) (m : Mem) :
+theorem rma_spec_determinate (w : WSizes) (ph : Phase) (h : phaseCommutes ph = true) (m : Mem) :
     ∀ order ∈ merges ph, runBlocks w order m = canonical w m ph := by
   induction ph generalizing m with
   | nil => intro order ho; simp [merges] at ho; subst ho; rfl
@@ -76,22 +122,23 @@ theorem flatten_mem_merges {α : Type} (ls : List (List α)) : ls.flatten ∈ me
     exact ⟨os.flatten, ih, append_mem_merge2 o os.flatten⟩
 
 /-- in the commuting case the monitor has exactly one acceptable observation -/
-theorem rma_spec_determinate_obs (n w : Nat) (m0 : Mem) (ph : Phase) (o : Obs) (h : phaseCommutes ph = true) :
-    allowed n w m0 ph o = matchesObs n w (canonical w m0 ph) o := by
+theorem rma_spec_determinate_obs (n w : Nat) (ws : WSizes) (m0 : Mem) (ph : Phase) (o : Obs)
+    (h : phaseCommutes ph = true) :
+    allowed n w ws m0 ph o = matchesObs n w (canonical ws m0 ph) o := by
   rw [Bool.eq_iff_iff, rma_spec_allowed_iff]
   constructor
   · rintro ⟨order, ho, hm⟩
-    rwa [rma_spec_determinate w ph h m0 order ho] at hm
+    rwa [rma_spec_determinate ws ph h m0 order ho] at hm
   · intro hm
     exact ⟨ph.flatten, flatten_mem_merges ph, hm⟩
 
 /-- fence epochs (or any two blocks) whose calls pairwise have non-overlapping footprints or are same-operator
 commutative accumulates can be executed in either order -/
-theorem fence_epochs_commute (w : Nat) (a b : Block) (h : blocksCommute a b = true) (m : Mem) :
+theorem fence_epochs_commute (w : WSizes) (a b : Block) (h : blocksCommute a b = true) (m : Mem) :
     Block.exec w a (Block.exec w b m) = Block.exec w b (Block.exec w a m) :=
   blocksCommute_sound w a b h m
 
-theorem foldl_frame (w : Nat) (cs : List Call) (m : Mem) (loc : Loc) (h : ∀ c ∈ cs, loc ∉ c.writes) :
+theorem foldl_frame (w : WSizes) (cs : List Call) (m : Mem) (loc : Loc) (h : ∀ c ∈ cs, loc ∉ c.writes) :
     cs.foldl (fun m c => c.execW w m) m loc = m loc := by
   induction cs generalizing m with
   | nil => rfl
@@ -106,14 +153,14 @@ theorem foldl_frame (w : Nat) (cs : List Call) (m : Mem) (loc : Loc) (h : ∀ c 
 /-- **A Get returns the value at its position in the serialisation**: in any sequence of calls `pre ++ get :: post`
 where no later call writes the same result word, word `k` of the Get's buffer is, at the end, the content of the
 target cell in the memory produced by exactly the calls before the Get. -/
-theorem get_returns_value_at_its_position (w : Nat) (pre post : List Call) (m0 : Mem) (id t d n k : Nat)
-    (hk : k < n) (hn : n ≤ w) (hpost : ∀ c ∈ post, Loc.res id k ∉ c.writes) :
+theorem get_returns_value_at_its_position (w : WSizes) (pre post : List Call) (m0 : Mem) (id t d n k : Nat)
+    (hk : k < n) (hn : n ≤ w t) (hpost : ∀ c ∈ post, Loc.res id k ∉ c.writes) :
     (pre ++ Call.get id t d n :: post).foldl (fun m c => c.execW w m) m0 (.res id k) =
       (pre.foldl (fun m c => c.execW w m) m0) (.win t (d + k)) := by
   rw [List.foldl_append, List.foldl_cons, foldl_frame w post _ _ hpost]
-  have : (Call.get id t d n).rangeErr w = false := by
+  have : (Call.get id t d n).rangeErr (w t) = false := by
     simp [Call.rangeErr, Call.count]; omega
-  simp [Call.execW, this, Call.exec, hk]
+  simp [Call.execW, Call.target, this, Call.exec, hk]
 
 /-- results returned by a sequence of compare-and-swap calls on cell `(t,d)` with compare value `c` -/
 def casResults (t d : Nat) (c : Int) : List (Nat × Int) → Mem → List Int
@@ -225,20 +272,20 @@ theorem mech_fixed_excl_epochs_isolated (m0 : Mem) (progs : List (List Epoch))
 def obsOf (n w : Nat) (ids : List Nat) (s : MState) : Obs :=
   { wins := winsOfMem n w s.mem, results := ids.map (fun id => (id, [s.mem (.res id 0)])) }
 
-def allowedIn (n w : Nat) (m0 : Mem) (orders : List (List Block)) (o : Obs) : Bool :=
-  orders.any (fun order => matchesObs n w (runBlocks w order m0) o)
+def allowedIn (n w : Nat) (ws : WSizes) (m0 : Mem) (orders : List (List Block)) (o : Obs) : Bool :=
+  orders.any (fun order => matchesObs n w (runBlocks ws order m0) o)
 
-theorem allowed_eq_allowedIn (n w : Nat) (m0 : Mem) (ph : Phase) (o : Obs) :
-    allowed n w m0 ph o = allowedIn n w m0 (merges ph) o := rfl
+theorem allowed_eq_allowedIn (n w : Nat) (ws : WSizes) (m0 : Mem) (ph : Phase) (o : Obs) :
+    allowed n w ws m0 ph o = allowedIn n w ws m0 (merges ph) o := rfl
 
-def badEnd (n w : Nat) (m0 : Mem) (orders : List (List Block)) (ids : List Nat) (r : Option MState) : Bool :=
+def badEnd (n w : Nat) (ws : WSizes) (m0 : Mem) (orders : List (List Block)) (ids : List Nat) (r : Option MState) : Bool :=
   match r with
-  | some s => s.finished n && !(allowedIn n w m0 orders (obsOf n w ids s))
+  | some s => s.finished n && !(allowedIn n w ws m0 orders (obsOf n w ids s))
   | none => false
 
-theorem badEnd_spec (n w : Nat) (m0 : Mem) (ph : Phase) (ids : List Nat) (r : Option MState)
-    (h : badEnd n w m0 (merges ph) ids r = true) :
-    ∃ s, r = some s ∧ s.finished n = true ∧ allowed n w m0 ph (obsOf n w ids s) = false := by
+theorem badEnd_spec (n w : Nat) (ws : WSizes) (m0 : Mem) (ph : Phase) (ids : List Nat) (r : Option MState)
+    (h : badEnd n w ws m0 (merges ph) ids r = true) :
+    ∃ s, r = some s ∧ s.finished n = true ∧ allowed n w ws m0 ph (obsOf n w ids s) = false := by
   cases r with
   | none => simp [badEnd] at h
   | some s =>
@@ -272,7 +319,7 @@ def w1Sched : List Ev :=
 
 theorem mech_excl_unlock_counterexample :
     ∃ s, runMech (MState.init m0w (w1Progs preFix)) w1Sched = some s ∧ s.finished 3 = true ∧
-      allowed 3 2 m0w [[w1Epoch0], [w1Epoch1]] (obsOf 3 2 [3, 4] s) = false := by
+      allowed 3 2 (fun _ => 2) m0w [[w1Epoch0], [w1Epoch1]] (obsOf 3 2 [3, 4] s) = false := by
   apply badEnd_spec
   rw [merges_two]
   decide +kernel
@@ -296,7 +343,7 @@ def w2Sched : List Ev :=
 
 theorem mech_cas_counterexample :
     ∃ s, runMech (MState.init m0w (w2Progs preFix)) w2Sched = some s ∧ s.finished 3 = true ∧
-      allowed 3 2 m0w [[[.cas 1 2 0 3000 11]], [[.cas 2 2 0 3000 22]]] (obsOf 3 2 [1, 2] s) = false := by
+      allowed 3 2 (fun _ => 2) m0w [[[.cas 1 2 0 3000 11]], [[.cas 2 2 0 3000 22]]] (obsOf 3 2 [1, 2] s) = false := by
   apply badEnd_spec
   rw [merges_two]
   decide +kernel
@@ -320,7 +367,7 @@ def w3Sched : List Ev :=
 
 theorem mech_getacc_counterexample :
     ∃ s, runMech (MState.init m0w (w3Progs preFix)) w3Sched = some s ∧ s.finished 3 = true ∧
-      allowed 3 2 m0w [[[.gacc 1 2 0 .replace [11]]], [[.acc 2 0 .replace [22]]]] (obsOf 3 2 [1] s) = false := by
+      allowed 3 2 (fun _ => 2) m0w [[[.gacc 1 2 0 .replace [11]]], [[.acc 2 0 .replace [22]]]] (obsOf 3 2 [1] s) = false := by
   apply badEnd_spec
   rw [merges_two]
   decide +kernel
@@ -339,9 +386,9 @@ example : phaseCommutes [[[.put 2 0 [1, 2]], [.acc 2 3 .sum [5]]], [[.acc 2 3 .s
 example : phaseCommutes [[[.put 2 0 [1]]], [[.put 2 0 [2]]]] = false := by decide
 
 /-- the spec distinguishes orders when blocks conflict: two results, both allowed, a third one not -/
-example : allowedIn 3 2 m0w [[[.put 2 0 [1]], [.put 2 0 [2]]], [[.put 2 0 [2]], [.put 2 0 [1]]]]
+example : allowedIn 3 2 (fun _ => 2) m0w [[[.put 2 0 [1]], [.put 2 0 [2]]], [[.put 2 0 [2]], [.put 2 0 [1]]]]
     { wins := [[1000, 1001], [2000, 2001], [1, 3001]], results := [] } = true := by decide
-example : allowedIn 3 2 m0w [[[.put 2 0 [1]], [.put 2 0 [2]]], [[.put 2 0 [2]], [.put 2 0 [1]]]]
+example : allowedIn 3 2 (fun _ => 2) m0w [[[.put 2 0 [1]], [.put 2 0 [2]]], [[.put 2 0 [2]], [.put 2 0 [1]]]]
     { wins := [[1000, 1001], [2000, 2001], [3, 3001]], results := [] } = false := by decide
 
 /-- cas_atomic's hypotheses are satisfiable and the count is exactly one -/
